@@ -1232,8 +1232,13 @@ def _mev(e, env, frame):
             same = False    # something truthy is not None
         elif isinstance(l, _Tok) or isinstance(r, _Tok):
             if l is not r:
-                return _UNKNOWN
-            same = True
+                tok, other = (l, r) if isinstance(l, _Tok) else (r, l)
+                fact = env.get("?none:" + tok.name) if other is None else None
+                if fact is None:
+                    return _UNKNOWN
+                same = fact     # the path has already taken a test of this very value against None one way
+            else:
+                same = True
         elif isinstance(e.ops[0], (ast.Is, ast.IsNot)) or isinstance(l, (_Rec, _CtxVal)) or isinstance(r, (_Rec, _CtxVal)):
             same = l is r
         else:
@@ -1257,12 +1262,12 @@ class ModelRun:
     the way the path takes them, with the locals the path has bound (values of the model; anything else unknown, and
     an unknown test leaves both branches open).  `envs[n]` lists the bindings with which CFG node n is entered."""
 
-    def __init__(self, fa, frame, ctx_param, cap=20000):
+    def __init__(self, fa, frame, ctx_param, cap=20000, seed=None):
         self.fa, self.frame = fa, frame
         cfg = fa.cfg
         self.envs = {}
         seen = set()
-        work = [(cfg.entry, {ctx_param: _CtxVal({})})]
+        work = [(cfg.entry, dict(seed or {}, **{ctx_param: _CtxVal({})}))]
         while work:
             n, env = work.pop()
             key = (n, tuple(sorted((k, _vkey(v)) for k, v in env.items())))
@@ -1308,6 +1313,7 @@ class ModelRun:
                             env.pop(k, None)
                         else:
                             env[k] = v
+            asked = self._none_test(a, env) if nd.kind == "test" and t is _UNKNOWN and not isinstance(fa.pm.get(a), ast.While) else None
             for (d, l) in cfg.succ[n]:
                 if raised and l != "exc":
                     continue
@@ -1318,7 +1324,27 @@ class ModelRun:
                         continue
                     if t is False and l == "T":
                         continue
+                if asked is not None and l in ("T", "F"):
+                    # an opaque value tested against None: each branch remembers which way it went, so that a second test
+                    # of the same value further down agrees with the first
+                    env2 = dict(env)
+                    env2["?none:" + asked[0].name] = asked[1] if l == "T" else not asked[1]
+                    work.append((d, env2))
+                    continue
                 work.append((d, env))
+
+    def _none_test(self, e, env):
+        """(opaque value, is-None when the test holds) for a test `X is None` / `X is not None` (== / != alike, `not`
+        around it) on a value of which nothing is known yet; else None"""
+        pol = True
+        while isinstance(e, ast.UnaryOp) and isinstance(e.op, ast.Not):
+            e, pol = e.operand, not pol
+        if isinstance(e, ast.Compare) and len(e.ops) == 1 and isinstance(e.ops[0], (ast.Is, ast.IsNot, ast.Eq, ast.NotEq)):
+            l, r = _mev(e.left, env, self.frame), _mev(e.comparators[0], env, self.frame)
+            tok, other = (l, r) if isinstance(l, _Tok) else (r, l)
+            if isinstance(tok, _Tok) and other is None and tok is not INHERITED_CA and ("?none:" + tok.name) not in env:
+                return (tok, pol == isinstance(e.ops[0], (ast.Is, ast.Eq)))
+        return None
 
     def reached(self, nodes):
         return any(n in self.envs for n in nodes)
@@ -1634,7 +1660,31 @@ def check(ck):
             ok3 = all(x is not None for x in a) and [A.norm(x) for x in a[:3]] == [cv + ".fn_reference", cv + ".args", cv + ".kwargs"] \
                 and is_inherited(a[3], at)
         # built after the update, on every inheriting path, and it is what is dispatched
-        ok3 = ok3 and all(rb.cfg.must_pass(un, i) for i in through)
+        _same = []
+
+        def same_cases():
+            # the list is rebuilt in exactly the cases in which the context args are inherited, and after that: read off the
+            # path conditions (the two steps may sit under two tests of the same thing — the call's own context args taken
+            # before and after updates that do not touch them)
+            if not _same:
+                from .keys import dnf_equivalent
+                b_ = set()
+                for i_ in through:
+                    b_ |= conds(rb, i_)
+                _same.append(dnf_equivalent(conds(rb, un[0]), b_) is True and all(i_ in rb.cfg.reach(un, include_start=False) for i_ in through)
+                             and not any(set(un) & rb.cfg.reach([i_], include_start=False) for i_ in through))
+            return _same[0]
+
+        def rebuilt_whenever_inherited(dn_, cx_, name_):
+            # the function walked with a calling frame: wherever the dispatch is reached with a context that holds the
+            # INHERITED context args, the list handed over is no longer the one the function was given
+            given = _Tok("the references the function was given")
+            run_ = ModelRun(rb, _model_frames()["free"], P_CTX, seed={P_REFS: given})
+            probe = ast.Attribute(value=ast.Attribute(value=cx_, attr="recursive", ctx=ast.Load()), attr="context_args", ctx=ast.Load())
+            envs_ = run_.envs.get(dn_, [])
+            return bool(envs_) and not any(_mev(probe, env_, run_.frame) is INHERITED_CA and env_.get(name_) is given for env_ in envs_)
+
+        ok3 = ok3 and (all(rb.cfg.must_pass(un, i) for i in through) or same_cases())
         if ok3:
             after = rb.cfg.reach(un, include_start=False)
             for d in disps:
@@ -1646,7 +1696,9 @@ def check(ck):
                         ok3 = False
                         continue
                     hn = {i for (i, nm) in holders if nm == r.id}
-                    ok3 = ok3 and bool(hn) and rb.cfg.always_reaches(un[0], hn, [dn]) and rb.cfg.always_reaches(un[0], through, [dn])
+                    ok3 = ok3 and bool(hn) and ((rb.cfg.always_reaches(un[0], hn, [dn]) and rb.cfg.always_reaches(un[0], through, [dn]))
+                                                or (same_cases() and any((df.node, df.name) in holders for df in rb.df.reaching(dn, r.id))
+                                                    and A.arg_or_kw(d, 0, "context") is not None and rebuilt_whenever_inherited(dn, A.arg_or_kw(d, 0, "context"), r.id)))
                     ok3 = ok3 and all((df.node, df.name) in holders or df.kind == "param" or df.node not in after for df in rb.df.reaching(dn, r.id))
     ck.ob(R2, rb.key(None, "rebuild"), bool(ok3), "references are rebuilt with the inherited context args" if ok3 else
           "after inheriting, the call references are not rebuilt from (fn_reference, args, kwargs, updated context args)", rb.where())
